@@ -309,7 +309,8 @@ def run_job(job):
         ops = seq_ops(dict(job, shard=[0, 1]))
         table = SMALL_SCEN if job["name"].startswith("concurrent-small") else CONCUR_SCEN
         scens = [{"threads": [ops[i] for i in sc[0]], "warm": [ops[i] for i in sc[1]], "post": [ops[i] for i in (sc[2] if len(sc) > 2 else ())]} for sc in table]
-        return run_concur_job(job, scens, run_case, PROPERTY, SMALL_FILES if job["name"].startswith("concurrent-small") else CONCUR_FILES, alphabet=ops)
+        return run_concur_job(job, scens, run_case, PROPERTY, SMALL_FILES if job["name"].startswith("concurrent-small") else CONCUR_FILES,
+                              alphabet=ops if job["name"].startswith("concurrent-small") else [o for o in ops if o[0] in ("payload", "pubstep")])    # (full derivations cost 0.3-0.5 s each: not as follow-up calls of every schedule)
     if job["part"] == "longhist":
         from vf.runner import run_long_job
         return run_long_job(job, long_ops(job), run_case)
